@@ -90,6 +90,11 @@ type Step struct {
 	// recent (closed) WAL, which must then stay readable.
 	Obsolete bool `json:"obsolete,omitempty"`
 	Keep     int  `json:"keep,omitempty"`
+	// OpNext: Restart closes the manager after closing the writer and opens a
+	// new one on the same directories the way DB.Open does (wal.Scan + wal.Init
+	// with the logs found); Obsolete is then the first call, as in Open, where
+	// it precedes the flush of the replayed memtables.
+	Restart bool `json:"restart,omitempty"`
 	// OpNext: gap in the WAL numbering (next = cur + 1 + Gap).
 	Gap int `json:"gap,omitempty"`
 	// OpWrite: Rep > 1 repeats the write Rep times (bulk of queued records).
@@ -284,10 +289,15 @@ func gen(t *rapid.T) Plan {
 				continue
 			}
 			nexts++
-			p.Steps = append(p.Steps, Step{Op: OpNext,
+			st := Step{Op: OpNext,
 				Obsolete: rapid.IntRange(0, 99).Draw(t, "obsolete") < 35,
 				Keep:     rapid.SampledFrom([]int{0, 1, 0, 2}).Draw(t, "obsolete_keep"),
-				Gap:      rapid.SampledFrom([]int{0, 0, 0, 1, 5}).Draw(t, "gap")})
+				Gap:      rapid.SampledFrom([]int{0, 0, 0, 1, 5}).Draw(t, "gap")}
+			if rapid.IntRange(0, 3).Draw(t, "restart") == 0 {
+				st.Restart, st.Obsolete = true, true
+				st.Keep = rapid.SampledFrom([]int{1, 1, 2}).Draw(t, "restart_keep")
+			}
+			p.Steps = append(p.Steps, st)
 		}
 	}
 	return p
